@@ -18,7 +18,7 @@ class P(Prop):
             "blackbox filled by its supergate is compared with the original by exhaustive simulation; non-trivial = >=3 gates")
     assumptions = ["set-iteration order inside the patched run is the model's ordBy(seed) family (the set of supergate "
                    "objects itself is iterated in id order, which only permutes independent supergates)"]
-    budget = {"quick": (80, 120), "thorough": (1500, 2500)}
+    budget = {"quick": (250, 500), "thorough": (1500, 2500)}
 
     def gen_case(self, single=False):
         rng = self.rng
@@ -155,6 +155,20 @@ class P(Prop):
         p = os.path.join(VERIF, "findings", "K28.json")
         if os.path.exists(p):
             self.oracle(c_from_json(json.load(open(p))["case"]["c"]))
+        # a supergate of one cone (z = not n) whose input n lies inside a larger supergate of another cone (y): the list
+        # must still give the producer first
+        c = cg.Circuit("cover")
+        for i in "pqrs":
+            c.add(i, "input")
+        c.add("a", "and", fanin=["p", "q"])
+        c.add("b", "or", fanin=["r", "s"])
+        c.add("n", "nand", fanin=["a", "b"])
+        c.add("t", "xor", fanin=["a", "b"])
+        c.add("y", "and", fanin=["n", "t"], output=True)
+        c.add("z", "not", fanin=["n"], output=True)
+        for _ in range(4):
+            self.oracle(c)
+        self.oracle(cg.tx.relabel(c, {"y": "z", "z": "y"}))
 
     def search(self, n):
         for i in range(n):
